@@ -389,6 +389,10 @@ func (e *execT) do(op string) (fl *failure) {
 	at := e.nOps
 	e.nOps++
 	f := strings.Fields(op)
+	opS := op // for messages
+	if len(opS) > 160 {
+		opS = opS[:160] + "…"
+	}
 	if len(f) == 0 {
 		return nil
 	}
@@ -582,7 +586,7 @@ func (e *execT) do(op string) (fl *failure) {
 		}
 	}()
 	if panicked != nil {
-		return &failure{"crash", fmt.Sprintf("real queue panicked on op %d %q: %v", at, op, panicked), at}
+		return &failure{"crash", fmt.Sprintf("real queue panicked on op %d %q: %v", at, opS, panicked), at}
 	}
 	if goOut == "bad-op" {
 		return nil
@@ -592,7 +596,7 @@ func (e *execT) do(op string) (fl *failure) {
 	goFull := goOut + " # " + e.dumpStr(d)
 	// ---- implementation-level oracle ------------------------------------------------------------
 	if msg := e.oracle(newResults, d); msg != "" {
-		fl = &failure{"oracle", fmt.Sprintf("op %d %q: %s", at, op, msg), at}
+		fl = &failure{"oracle", fmt.Sprintf("op %d %q: %s", at, opS, msg), at}
 	}
 	// ---- correspondence ----------------------------------------------------------------------------
 	if e.drv != nil {
@@ -601,7 +605,7 @@ func (e *execT) do(op string) (fl *failure) {
 			return &failure{"crash", "lean driver: " + err.Error(), at}
 		}
 		if lean != goFull && fl == nil {
-			fl = &failure{"correspondence", fmt.Sprintf("op %d %q: real queue and model differ\n  go:   %s\n  lean: %s", at, op, diffHint(goFull, lean), diffHint(lean, goFull)), at}
+			fl = &failure{"correspondence", fmt.Sprintf("op %d %q: real queue and model differ\n  go:   %s\n  lean: %s", at, opS, diffHint(goFull, lean), diffHint(lean, goFull)), at}
 		}
 	}
 	return fl
